@@ -311,3 +311,43 @@ Definition c18_ok (c : scenario * obs) : bool :=
 (* ---------- result lists ---------- *)
 Definition failing (p : scenario * obs -> bool) (cs : list (scenario * obs)) : list nat :=
   indices_where (fun c => negb (p c)) cs.
+
+(* ---------- scenarios given as explicit label lists (fine-grained schedules realised with gates) ---------- *)
+Record lscenario := {
+  ls_cfg : config;
+  ls_faults : list (nat * nat * fkind);
+  ls_labels : list label
+}.
+
+Definition lmodel_ok (c : lscenario * obs) : bool :=
+  let '(sc, o) := c in
+  match run (ls_cfg sc) (fp_of_list (ls_faults sc)) sys0 (ls_labels sc) with
+  | None => false
+  | Some s =>
+      let w := s_w s in
+      negb (o_stuck o)
+      && list_eqb wire_eqb (o_wire o) (w_wire w)
+      && list_eqb Nat.eqb (o_delivered o) (b_delivered (w_broker w))
+      && list_eqb Nat.eqb (o_acked o) (final_acked (w_wire w))
+      && Bool.eqb (o_hung o) (w_hung w)
+      && list_eqb errclass_eqb (o_errs o) (w_errs w)
+      && (o_retryq o =? length (w_retryq w))
+      && (o_taskq o =? length (s_taskq s))
+  end.
+
+Fixpoint label_submits (ls : list label) : list uop :=
+  match ls with
+  | [] => []
+  | LSubmit o :: r => o :: label_submits r
+  | _ :: r => label_submits r
+  end.
+
+(* C01 on a fine-grained schedule that ends idle on a fault-free connection *)
+Definition lc01_ok (c : lscenario * obs) : bool :=
+  let '(sc, o) := c in
+  negb (o_stuck o) && negb (o_hung o)
+  && forallb (fun op => negb (needs_ack op) || mem (uop_uid op) (o_acked o)) (label_submits (ls_labels sc))
+  && (o_retryq o =? 0) && (o_taskq o =? 0).
+
+Definition lfailing (p : lscenario * obs -> bool) (cs : list (lscenario * obs)) : list nat :=
+  indices_where (fun c => negb (p c)) cs.
